@@ -207,3 +207,66 @@ Theorem framing_chunk_independent_lemma stream cs1 cs2 :
 Proof.
   intros H1 H2 N1 N2. rewrite (frames_conn_stream cs1 N1), (frames_conn_stream cs2 N2), H1, H2. auto.
 Qed.
+
+(* ---- how a connection ends, and what is asked of recv ---- *)
+Lemma bytes_ok_firstn n (s : bytes) : bytes_ok s = true -> bytes_ok (firstn n s) = true.
+Proof.
+  unfold bytes_ok. revert n. induction s as [|b s IH]; intros n H; destruct n; cbn in *; auto.
+  apply andb_true_iff in H. destruct H as [Hb Hs]. rewrite Hb. cbn. auto.
+Qed.
+Lemma bytes_ok_skipn n (s : bytes) : bytes_ok s = true -> bytes_ok (skipn n s) = true.
+Proof.
+  unfold bytes_ok. revert n. induction s as [|b s IH]; intros n H; destruct n; cbn in *; auto.
+  apply andb_true_iff in H. destruct H as [Hb Hs]. auto.
+Qed.
+
+Lemma frames_of_ending : forall fuel fuel0 cs,
+  Forall nonempty cs -> (length (concat cs) < fuel0)%nat -> (length (concat cs) < fuel)%nat ->
+  bytes_ok (concat cs) = true ->
+  snd (frames_of fuel0 fuel cs) = EndClosed.
+Proof.
+  induction fuel as [|f IH]; intros fuel0 cs Hne Hf0 Hf Hok; [lia|].
+  rewrite frames_of_S.
+  pose proof (receive_request_cases fuel0 cs Hne Hf0) as V. cbv zeta in V.
+  remember (concat cs) as s eqn:Hs in *.
+  assert (Hnn : 0 <= be_dec (firstn 4 (skipn 4 s))).
+  { apply be_dec_bound. apply bytes_ok_firstn, bytes_ok_skipn. exact Hok. }
+  remember (be_dec (firstn 4 (skipn 4 s))) as size eqn:Hsize in *.
+  destruct V as [(Hshort & a & Hr) | [(Hl & Hneg & a & Hr) | [(Hl & _ & Hinc & a & Hr) | (Hl & Hfit & cs2 & a & Hr & Hc2 & Hne2)]]];
+    rewrite Hr; try reflexivity; [lia|].
+  assert (Hlen2 : length (concat cs2) = (length s - Z.to_nat (8 + size))%nat) by (rewrite Hc2; apply skipn_length).
+  assert (Hok2 : bytes_ok (concat cs2) = true) by (rewrite Hc2; apply bytes_ok_skipn; exact Hok).
+  assert (H0 : (length (concat cs2) < fuel0)%nat) by lia.
+  assert (H1 : (length (concat cs2) < f)%nat) by (unfold zlen in *; lia).
+  specialize (IH fuel0 cs2 Hne2 H0 H1 Hok2).
+  destruct (frames_of fuel0 f cs2) as [[frs a'] e]. cbn [snd] in *. exact IH.
+Qed.
+
+(* a connection whose peer sends bytes (values 0..255) in non-empty chunks always ends with ConnectionClosed:
+   neither the ValueError of _receive_bytes nor fuel exhaustion can happen *)
+Theorem frames_conn_ends_closed cs :
+  Forall nonempty cs -> bytes_ok (concat cs) = true -> snd (frames_conn cs) = EndClosed.
+Proof.
+  intros Hne Hok. unfold frames_conn, conn_fuel. apply frames_of_ending; auto.
+Qed.
+
+Definition asked_of (r : rres) : list Z :=
+  match r with Got _ _ a | Closed a | Overrun a => a | NoFuel => [] end.
+
+(* bounded reads: recv is never asked for more than the 4096-byte buffer, nor for more than is still missing *)
+Theorem recv_asked_bounded : forall fuel remaining cs,
+  Forall (fun n => 0 < n <= BUF /\ n <= remaining) (asked_of (recv_loop fuel remaining cs)).
+Proof.
+  induction fuel as [|f IH]; intros remaining cs; simpl.
+  - destruct (0 <? remaining); [constructor|]. destruct (remaining =? 0); constructor.
+  - destruct (0 <? remaining) eqn:E.
+    + destruct (conn_recv (Z.min remaining BUF) cs) as [part cs'] eqn:Er.
+      assert (Hn : 0 < Z.min remaining BUF <= BUF /\ Z.min remaining BUF <= remaining) by (unfold BUF; lia).
+      destruct (zlen part =? 0) eqn:Ez; [repeat constructor; lia|].
+      assert (Hp : 0 <= zlen part) by apply zlen_nonneg'.
+      specialize (IH (remaining - zlen part) cs').
+      destruct (recv_loop f (remaining - zlen part) cs'); cbn [asked_of] in *;
+        try (constructor; [exact Hn|]); try constructor;
+        (eapply Forall_impl; [|exact IH]; cbv beta; intros; lia).
+    + destruct (remaining =? 0); constructor.
+Qed.
